@@ -2,6 +2,7 @@ import LexVerif.Spec.ParseInt
 import LexVerif.Spec.StdFloat
 import LexVerif.Spec.Shortest
 import LexVerif.Model.FormatDecimal
+import LexVerif.Model.Ops.ParseFloat
 /-!
 # Driver — line-protocol evaluator of the Lean models and specifications
 
@@ -100,7 +101,8 @@ def specOf (feats : Features) (t : List String) : String :=
 
 /-- model column: the first handler that recognises the op answers.
 Each `Model/Ops/*.lean` exposes `handle : Features → List String → Option String`. -/
-def modelHandlers : List (Features → List String → Option String) := []
+def modelHandlers : List (Features → List String → Option String) :=
+  [LexVerif.Model.Ops.ParseFloat.handle]
 
 def modelOf (feats : Features) (t : List String) : String :=
   (modelHandlers.findSome? (fun h => h feats t)).getD "-"
